@@ -366,6 +366,8 @@ def _corrupt(ev):
                 e["res"]["used"] += 1
             else:
                 e["res"]["err"] = "End" if e["res"]["err"] != "End" else "BadVarint"
+        elif op == "rtt" and "used" in e and e["used"] >= 0:
+            e["used"] += 1
         elif op == "decb":
             e["outs"][5] = [0, "End"] if e["outs"][5][0] == 1 else [1, [0, 0], 1]
         elif op == "fixb":
